@@ -59,6 +59,9 @@ REF = {
 }
 # which first reactants get the self-shielded photo law (full species names)
 SHIELDED = {("LEEDSReaction", 4): ["H2", "CO", "N2"], ("LEEDSReaction", 12): ["GH2", "GCO", "GN2"], ("UCLCHEMReaction", "PHOTON"): ["CO"]}
+# ... and the column density each of them is shielded by, for arms written per species (name -> column table)
+SHIELD_COLUMN = {("LEEDSReaction", 4): {"H2": "h2col", "CO": "cocol", "N2": "n2col"}, ("LEEDSReaction", 12): {"GH2": "h2col", "GCO": "cocol", "GN2": "n2col"},
+                 ("UCLCHEMReaction", "PHOTON"): {"CO": "cocol"}}
 GAS_CLASSES = ["Reaction", "KIDAReaction", "UMISTReaction", "LEEDSReaction", "UCLCHEMReaction"]
 COEFF = {("attr", SELF, "alpha"): "alpha", ("attr", SELF, "beta"): "beta", ("attr", SELF, "gamma"): "gamma"}
 
@@ -193,10 +196,15 @@ def name_selection(cond):
         if op in ("Eq", "NotEq") and rhs[0] == "const" and isinstance(rhs[1], str):
             return lhs, [rhs[1]], op == "Eq"
         return None
-    if cond[0] == "bool" and cond[1] == "Or":
+    if cond[0] == "unop" and cond[1] == "Not":
+        inner = name_selection(cond[2])
+        return None if inner is None else (inner[0], inner[1], not inner[2])
+    if cond[0] == "bool":
+        # `x == "A" or x == "B"` selects [A, B];  `x != "A" and x != "B"` (not .. and not ..) is its negation
         parts = [name_selection(p) for p in cond[2]]
-        if all(p is not None and p[2] and p[1] is not None and p[0] == parts[0][0] for p in parts):
-            return parts[0][0], sorted({n for p in parts for n in p[1]}), True
+        want = cond[1] == "Or"
+        if all(p is not None and p[2] == want and p[1] is not None and p[0] == parts[0][0] for p in parts):
+            return parts[0][0], sorted({n for p in parts for n in p[1]}), want
     return None
 
 
@@ -379,43 +387,51 @@ def _r2_r3(ctx, rm, pkg, allv):
                 continue
             ctx.ok("R2", key, where, "code reaches a rate template")
             # R3: compare each variant with the reference
+            selections = []          # per variant that tests the reactant's name: (shielded?, names selected | None, names excluded, tested views, variant)
+            sel_open = []
             for v, extra in arms:
                 txt, names = variant_text(v)
                 zero = {}
                 for c, val in v.assume.items():
                     if c in COEFF:
                         zero[COEFF[c]] = not val
-                branch = "plain"
                 unknown = []
-                for cond, pol in extra:
+                pos, neg, views = [], set(), []
+                # (tests decided while the optional parts of the text were enumerated are conditions of the variant like those of its path)
+                for cond, pol in list(extra) + [(c, val) for c, val in v.assume.items() if c not in COEFF]:
                     ca = coeff_assumption(cond, pol)
+                    ns = None if ca else name_selection(cond)
                     if ca:
                         zero[ca[0]] = ca[1]
-                    elif name_selection(cond) is not None:
-                        lhs, got, positive = name_selection(cond)
-                        inn = positive == pol
-                        branch = "shielded" if inn else "plain"
-                        # who is shielded is part of the law: exactly the listed species, selected by their full name
-                        # (Species.name carries the charge and surface prefix; basename/element views do not)
-                        want = SHIELDED.get((cls, code))
-                        skey = f"{key}:shielded-species"
-                        if want is None or got is None:
-                            ctx.unrec("R3", skey, (v.file, v.line), f"shielding selection {show(cond)[:100]} has no reference list / is not a literal list")
-                        elif not (lhs[0] == "attr" and lhs[2] in ("name", "basename", "gasname", "alias")):
-                            ctx.unrec("R3", skey, (v.file, v.line), f"cannot see which view of the reactant's name selects self-shielding: {show(lhs)[:80]}")
-                        elif lhs[2] != "name":
-                            ctx.bad("R3", skey, (v.file, v.line), "self-shielding is selected by something other than the reactant's full name, so species that merely share a base name (ions, surface forms) get a different law",
-                                    expected=f"<first reactant>.name in {want}", found=show(cond)[:120])
+                    elif ns is not None:
+                        # who is shielded is part of the law: the condition holds for / excludes a literal list of names
+                        lhs, lit, positive = ns
+                        views.append(lhs)
+                        if lit is None:
+                            sel_open.append(show(cond)[:100])
+                        elif positive == pol:
+                            pos.append(set(lit))
                         else:
-                            ctx.check(got == sorted(want), "R3", skey, (v.file, v.line), "self-shielding applies to exactly the species of the database's law",
-                                      expected=str(sorted(want)), found=str(got))
+                            neg |= set(lit)
                     else:
                         unknown.append(show(cond)[:80])
-                vkey = f"{key}:{'/'.join(k + ('=0' if z else '!=0') for k, z in sorted(zero.items())) or 'all'}:{branch}"
-                if unknown or any(n is None for n in names.values()):
-                    ctx.unrec("R3", vkey, (v.file, v.line), f"variant has unrecognised conditions/holes: {unknown} {[h for h, n in names.items() if n is None]}")
+                branch = "shielded" if pos else "plain"
+                chosen = (set.intersection(*pos) - neg) if pos else None
+                if chosen is not None and not chosen and not sel_open:
+                    continue        # the name is required to be in a list and excluded from all of it: not a case that exists
+                if views:
+                    selections.append((branch == "shielded", chosen, neg, views, v))
+                vkey = f"{key}:{'/'.join(k + ('=0' if z else '!=0') for k, z in sorted(zero.items())) or 'all'}:{branch}" + \
+                    (f":{'+'.join(sorted(chosen))}" if chosen is not None and len(selections) > 1 and sum(1 for s_ in selections if s_[0]) > 1 else "")
+                if unknown or any(n is None for n in names.values()) or v.seqs:
+                    ctx.unrec("R3", vkey, (v.file, v.line), f"variant has unrecognised conditions/holes: {unknown} {[h for h, n in names.items() if n is None]}"
+                              + (f" / joined sequence(s) {sorted(v.seqs)}" if v.seqs else ""))
                     continue
                 reftxt = ref[branch] if isinstance(ref, dict) else ref
+                # a variant that holds for ONE named species may spell that species' column density out (a table name -> column)
+                cols = SHIELD_COLUMN.get((cls, code), {})
+                if chosen is not None and len(chosen) == 1 and next(iter(chosen)) in cols and "R1NAMEcol" in reftxt and "R1NAMEcol" not in txt:
+                    reftxt = reftxt.replace("R1NAMEcol", cols[next(iter(chosen))])
                 env = {k: 0.0 for k, z in zero.items() if z}
                 try:
                     a = calg.canon_str(txt, env)
@@ -426,6 +442,27 @@ def _r2_r3(ctx, rm, pkg, allv):
                 ctx.check(a.equiv(b), "R3", vkey, (v.file, v.line),
                           f"{txt!r} == reference law" if a.equiv(b) else "rate template differs from the reference law of this database code",
                           expected=f"{reftxt}  [{b.show()[:160]}]", found=f"{txt}  [{a.show()[:160]}]")
+            if selections or sel_open:
+                # exactly the listed species are self-shielded, selected by their full name (Species.name carries the charge and the surface
+                # prefix; basename / alias views do not) -- decided over ALL variants of the code: one test against a list, or one arm per name
+                want = SHIELDED.get((cls, code))
+                skey = f"{key}:shielded-species"
+                swhere = (selections[0][4].file, selections[0][4].line) if selections else where
+                views = [lhs for s_ in selections for lhs in s_[3]]
+                odd = [lhs for lhs in views if not (lhs[0] == "attr" and lhs[2] in ("name", "basename", "gasname", "alias"))]
+                other = [lhs for lhs in views if lhs[0] == "attr" and lhs[2] in ("basename", "gasname", "alias")]
+                if want is None or sel_open:
+                    ctx.unrec("R3", skey, swhere, f"shielding selection {sel_open[:1] or [show(views[0])[:80]]} has no reference list / is not a literal list")
+                elif odd:
+                    ctx.unrec("R3", skey, swhere, f"cannot see which view of the reactant's name selects self-shielding: {show(odd[0])[:80]}")
+                elif other:
+                    ctx.bad("R3", skey, swhere, "self-shielding is selected by something other than the reactant's full name, so species that merely share a base name (ions, surface forms) get a different law",
+                            expected=f"<first reactant>.name in {want}", found=f"{show(other[0])[:80]} tested against {sorted(set().union(*[s_[1] or set() for s_ in selections], *[s_[2] for s_ in selections]))}")
+                else:
+                    got = sorted(set().union(*[s_[1] for s_ in selections if s_[0]], set()))
+                    leaked = sorted(set().union(*[set(want) - s_[2] for s_ in selections if not s_[0]], set()))
+                    ctx.check(got == sorted(want) and not leaked, "R3", skey, swhere, "self-shielding applies to exactly the species of the database's law",
+                              expected=str(sorted(want)), found=str(got) + (f"; the unshielded law is also reachable for {leaked}" if leaked else ""))
     ctx.floor("R2", "code table entries", total, 44)
     # sibling agreement: the types Reaction.rateexpr hands to the grain == the types Grain.rateexpr dispatches to a rate builder.  Decided
     # by EVALUATING both dispatches for every ReactionType value (whatever the spelling: list / tuple / set / class-level table /
@@ -689,3 +726,18 @@ def _kida_module_function(expo):
 
 BENIGN.append({"name": "kida-arrhenius-by-module-function", "edits": _kida_module_function("-")})
 MUTANTS.append({"name": "kida-module-function-sign", "edits": _kida_module_function(""), "rules": ["R3"]})
+
+
+# ---- spellings accepted since the round-6 benign sets / rules added for the round-6 seeds ----
+def _leeds_column_table(view, cocol="cocol"):
+    """who is self-shielded (and by which column density) looked up in a class-level table keyed by the reactant's name"""
+    return [{"file": L, "old": _LEEDS4_OLD, "new": '            rate = f"G0 * {a} * exp(-{c}*Av)"\n            coldens = self._shield_columns.get(re1.' + view + ')\n            if coldens is not None:\n'
+             '                shield = f"GetShieldingFactor(IDX_{re1.alias}, h2col, {coldens}, Tgas, 0)"\n                rate = f"{rate} * {shield}"\n'},
+            {"file": L, "old": _LEEDS_DEF, "new": '    _shield_columns = {"H2": "h2col", "CO": "' + cocol + '", "N2": "n2col"}\n\n' + _LEEDS_DEF}]
+
+
+BENIGN.append({"name": "leeds-shield-column-table-by-name", "edits": _leeds_column_table("name")})
+MUTANTS += [{"name": "leeds-shield-column-table-by-basename", "edits": _leeds_column_table("basename"), "rules": ["R3"]},
+            {"name": "leeds-shield-column-table-wrong-column", "edits": _leeds_column_table("name", "h2col"), "rules": ["R3"]}]
+BENIGN.append({"name": "uclchem-shield-by-equality", "file": UC, "old": 'if re1.name in ["CO"]:', "new": 'if re1.name == "CO":'})
+MUTANTS.append({"name": "uclchem-shield-by-equality-other-species", "file": UC, "old": 'if re1.name in ["CO"]:', "new": 'if re1.name == "CO" or re1.name == "N2":', "rules": ["R3"]})
